@@ -328,3 +328,12 @@ func init() {
 		}
 	})
 }
+
+func init() {
+	register("DBGP", "debug partial groups", func(c *Ctx, r *Report) {
+		for _, line := range partialGroups(c) {
+			fmt.Println(line)
+		}
+		r.add("DBGP", "debug", "x", "x", nil, nil, "")
+	})
+}
